@@ -9,8 +9,22 @@ from harness import common as C
 from harness import history as H
 from harness import impl, trees
 from harness.props import c06
+from harness.translate import t10_transforms
 
 PID = "C07"
+
+
+def sync():
+    """gen/G_transforms.v: the bodies of the five list transforms regenerated from the source (T10)"""
+    import os
+    try:
+        txt = t10_transforms.translate()
+    except t10_transforms.TranslateError as e:
+        return False, f"T10 translator (distributions/transforms.py): {e}"
+    with C.CoqLock():
+        C.write_if_changed(os.path.join(C.COQ, "gen", "G_transforms.v"), txt)
+    return True, txt
+
 HEADER = ("From Coq Require Import QArith ZArith List. Import ListNotations.\n"
           "From TT Require Import Num NumI Tree M_transform M_height.\n")
 LIST_TRANSFORMS = ["cumsum", "cumsumexp", "softplus", "cumsumsoftplus", "log", "exp", "sigmoid", "affine"]
@@ -316,6 +330,8 @@ def property_on_impl(c, o):
 def run(tier, seed, replay=None):
     rep = C.Report(PID, tier, seed)
     rep.trusted = C.COMMON_TRUSTED + [
+        "translator T10 (harness/translate/t10_transforms.py): bodies of _call/_inverse/log_abs_det_jacobian of the "
+        "five list transforms -> gen/G_transforms.v, proved equal to the model (C07_transform_source_is_model)",
         "hand-written models M_transform.v, M_height.v (tied by interval-run correspondence on transform(x), "
         ".inv(y), .log_abs_det_jacobian(x,y), TransformedParameter(), ReparameterizedTimeTreeModel())",
         "classical fact not re-proved on lists: det of a triangular matrix = product of its diagonal (mathcomp det_trig)",
@@ -352,7 +368,16 @@ def run(tier, seed, replay=None):
                 found.setdefault(k, (k, bad[1], dict(case=c, observed=o)))
         return list(found.values())
 
-    C.handle_proof(rep, PID, search)
+    ok_sync, info = sync()
+    if not ok_sync:
+        # the source no longer has the shape the regenerated bodies are read from: the theorem tying the model to it
+        # is not re-checked; the implementation is searched for a failing input, reported either way
+        rep.proof = dict(obligations=1, discharged=0, axioms={}, theorems=["T10 translation"], ok=False)
+        if not search():
+            rep.violation("C07:translator-failed", str(info)[:400],
+                          dict(error=str(info), broken="T10 / prop/C07.v:C07_transform_source_is_model"), False)
+    else:
+        C.handle_proof(rep, PID, search)
     for f in search():
         rep.violation(*f)
 
